@@ -116,12 +116,12 @@ def _print_Piecewise(
     except Exception:
         # sympy may fail to simplify e.g conditions with unevaluated numbers
         simplified = expr
-    if (
-        isinstance(simplified, sympy.Piecewise)
-        and len(simplified.args) > 0
-        and simplified.args[-1].cond == sympy.true
+    if isinstance(simplified, sympy.Piecewise) and all(
+        len(piecewise.args) > 0 and piecewise.args[-1].cond == sympy.true
+        for piecewise in simplified.atoms(sympy.Piecewise)
     ):
         # Only use the simplified version if it is still a proper Piecewise
+        # (sympy may e.g. drop the default value of a nested Piecewise)
         expr = simplified
 
     exprs = [printer._print(arg.expr) for arg in expr.args]
